@@ -446,8 +446,19 @@ func (w *world) witnessesFine() *verdict {
 	if !w.w1.ping(2 * time.Second) {
 		return &verdict{"same-session-witness-disturbed", "a well-behaved participant of the offender's session got no ping response within 2 s; server goroutines: " + leftoverStacks()}
 	}
-	if _, ok := w.w2.addEntity(); !ok {
+	eid, ok := w.w2.addEntity()
+	if !ok {
 		return &verdict{"same-session-witness-disturbed", "a well-behaved participant of the offender's session could not add an entity within 2 s"}
+	}
+	// pose updates travel through the session's frame worker: it must still be turning
+	px := float32(1000 + rid()%1000)
+	w.w2.send(&hagallpb.EntityUpdatePose{Type: hagallpb.MsgType_MSG_TYPE_ENTITY_UPDATE_POSE, Timestamp: now(), EntityId: eid, Pose: &hagallpb.Pose{Px: px}})
+	if _, ok := w.w1.waitFor(hagallpb.MsgType_MSG_TYPE_ENTITY_UPDATE_POSE_BROADCAST, 2*time.Second, func(m hwebsocket.Msg) bool {
+		var b hagallpb.EntityUpdatePoseBroadcast
+		m.DataTo(&b)
+		return b.EntityId == eid && b.Pose != nil && b.Pose.Px == px
+	}); !ok {
+		return &verdict{"session-frame-worker-stuck", "a pose update of a well-behaved participant of the offender's session was not relayed to the other witness within 2 s; server goroutines: " + leftoverStacks()}
 	}
 	return nil
 }
@@ -593,6 +604,39 @@ func scenarioStallChatty(seed int64, idle, frame time.Duration) *verdict {
 	case <-done:
 	case <-time.After(3 * time.Second):
 	}
+	v := w.witnessesFine()
+	return w.finish(v, 0, 4*time.Second+2*idle)
+}
+
+// a member that stops reading while it keeps sending requests (answered with large responses) and pose updates: its
+// send queue fills, its main loop blocks on it, its scheduler queue fills, and the session's frame worker has updates to
+// hand to that scheduler.  When the connection is finally ended, the session and its other members must move on.
+func scenarioStallPose(seed int64, idle, frame time.Duration) *verdict {
+	w := newWorld(seed, idle, frame)
+	o, _ := w.offender(true, false)
+	name := string(bytes.Repeat([]byte{'n'}, 9000))
+	o.send(&hagallpb.EntityComponentTypeAddRequest{Type: hagallpb.MsgType_MSG_TYPE_ENTITY_COMPONENT_TYPE_ADD_REQUEST, Timestamp: now(), RequestId: rid(), EntityComponentTypeName: name})
+	done := make(chan struct{})
+	go func() {
+		defer close(done)
+		for i := 0; i < 8000; i++ {
+			if i%7 == 0 {
+				// any entity id will do: the scheduler keeps the update until the next frame whoever owns the entity
+				if o.send(&hagallpb.EntityUpdatePose{Type: hagallpb.MsgType_MSG_TYPE_ENTITY_UPDATE_POSE, Timestamp: now(), EntityId: uint32(1 + i%5), Pose: &hagallpb.Pose{Px: float32(i)}}) != nil {
+					return
+				}
+			}
+			if o.send(&hagallpb.EntityComponentTypeGetNameRequest{Type: hagallpb.MsgType_MSG_TYPE_ENTITY_COMPONENT_TYPE_GET_NAME_REQUEST, Timestamp: now(), RequestId: rid(), EntityComponentTypeId: 1}) != nil {
+				return
+			}
+		}
+	}()
+	select {
+	case <-done:
+	case <-time.After(2*idle + 2*time.Second):
+	}
+	o.ws.Close()
+	time.Sleep(idle + 300*time.Millisecond)
 	v := w.witnessesFine()
 	return w.finish(v, 0, 4*time.Second+2*idle)
 }
@@ -891,7 +935,7 @@ var scenarios = map[string]func(int64, time.Duration, time.Duration) *verdict{
 	"churn": scenarioChurn, "types": scenarioTypes,
 	"concurrent": scenarioConcurrent,
 	"order": scenarioOrder,
-	"malformed": scenarioMalformed, "fields": scenarioFields, "burst": scenarioBurst, "abrupt": scenarioAbrupt,
+	"malformed": scenarioMalformed, "fields": scenarioFields, "burst": scenarioBurst, "abrupt": scenarioAbrupt, "stall-pose": scenarioStallPose,
 	"stall-chatty": scenarioStallChatty, "stall-silent": scenarioStallSilent, "idle": scenarioIdle,
 }
 
